@@ -69,6 +69,9 @@ def _attribute(exc: BaseException, pattern: str, flags_note: str) -> str | None:
     return None
 
 
+FIXED_BOTH_TYPES = ['[z-a]', '[!9-0]', '[z-ay-b]', 'x[z-a]y', '[^b-a]*', '@([z-a]|b)', '[z-a]/[!z-a]', '[!z-a][b-a]', '*[9-0]', '[[:alpha:]z-a]', '[z-a', '!(x[z-a])']
+
+
 def run(ck: Check) -> int:
     common.import_wcmatch()
     from wcmatch import _wcparse as W, fnmatch as F, glob as G, wcmatch as WM, pathlib as WP
@@ -164,6 +167,10 @@ def run(ck: Check) -> int:
                 else:
                     p = ''.join(R.choice(gen.SIGMA_P) for _ in range(R.randint(0, 7)))
                 isb = R.random() < 0.2 and all(ord(c) < 256 for c in p)
+                if k < 2 * len(FIXED_BOTH_TYPES):
+                    # brackets emptied by the reversed-range check, as str AND as bytes through every entry point (added after seeded change
+                    # C10i: the replacement class always used the Unicode full range, which a bytes regex cannot encode: UnicodeEncodeError)
+                    p, isb, rawp = FIXED_BOTH_TYPES[k // 2], bool(k % 2), False
                 pp = p.encode('latin-1') if isb else p
                 conv = (lambda s: s.encode('latin-1')) if isb else (lambda s: s)
                 seen.add((p, isb))
